@@ -65,3 +65,34 @@ Proof. exact st_total. Qed.
 Theorem C20_prefix_in_analysis_no_longer_panics : exists sb rb limit, wf_sb sb /\ wf_rb rb /\
   e_es true sb rb limit <> RPanic /\ e_es true sb rb limit = e_es false sb rb limit.
 Proof. exact e_es_prefix_no_panic. Qed.
+
+(* former finding C20-edf-never-tua: the search space of the EDF analyses also contains offsets stemming from the
+   other tasks' steps; if the task under analysis has no arrival there (arrival::Never, sparse
+   ApproximatedPoisson), self_interference - rem_cost underflowed in edf::fully_nonpreemptive and
+   edf::limited_preemptive (debug: panic; release: wrap-around, Ok(12) on both witnesses); fixed by saturating_sub.
+   The four EDF analyses are now total and profile-independent on every well-formed input: no hypothesis that the
+   task under analysis can release a job, no step-class hypothesis *)
+Theorem C20_edf_fp_total : forall dbg tua D others limit, wf_rb tua ->
+  Forall (fun o : RB * N => wf_rb (fst o)) others ->
+  e_edf_fp dbg tua D others limit <> RPanic /\
+  e_edf_fp dbg tua D others limit = e_edf_fp (negb dbg) tua D others limit.
+Proof. exact e_edf_fp_total. Qed.
+Theorem C20_edf_fnp_total : forall dbg tua D (others : list (RB * N * N)) limit, wf_rb tua ->
+  Forall (fun o => wf_rb (fst (fst o))) others ->
+  e_edf_fnp dbg tua D others limit <> RPanic /\
+  e_edf_fnp dbg tua D others limit = e_edf_fnp (negb dbg) tua D others limit.
+Proof. exact e_edf_fnp_total. Qed.
+Theorem C20_edf_np_total : forall dbg ab C D (others : list (AB * N * N)) limit, wf_ab ab -> 1 <= C ->
+  Forall (fun o => wf_ab (fst (fst o))) others ->
+  e_edf_np dbg ab C D others limit <> RPanic /\
+  e_edf_np dbg ab C D others limit = e_edf_np (negb dbg) ab C D others limit.
+Proof. exact e_edf_np_total. Qed.
+Theorem C20_edf_lp_total : forall dbg ab C D last (others : list (RB * N * N)) limit, wf_ab ab ->
+  1 <= last -> last <= C -> Forall (fun o => wf_rb (fst (fst o))) others ->
+  e_edf_lp dbg ab C D last others limit <> RPanic /\
+  e_edf_lp dbg ab C D last others limit = e_edf_lp (negb dbg) ab C D last others limit.
+Proof. exact e_edf_lp_total. Qed.
+(* the two witnesses: (edf_np ((never) 9 93) (((periodic 30) 12 17)) 200) = Ok(20) and
+   (edf_lp ((never) 9 93 4) (((rbf (periodic 30) (scalar 12)) 17 3)) 200) = Ok(15) in both build profiles *)
+Definition C20_edf_np_never_tua_repaired := edf_np_never_tua_repaired.
+Definition C20_edf_lp_never_tua_repaired := edf_lp_never_tua_repaired.
